@@ -3,7 +3,7 @@
   (`decDigitsLoop`, `radixDigitsLoop`): fuel-independent cut lemmas, and small facts used by
   the cut proofs of the paths of `readNumber` (Edn.Proofs.ReReadAux4).
 -/
-import Edn.Proofs.ReReadAux0
+import Edn.Proofs.ReReadAux3
 
 set_option linter.unusedSimpArgs false
 
@@ -11,14 +11,6 @@ namespace Edn.Proofs
 open Edn.Model Edn.Spec
 
 /-! ## trivial cuts -/
-
-theorem NumCut_nil (o : NumOut) : NumCut [] o o := by
-  intro v rest h _
-  exact ⟨rest, by simp, h⟩
-
-theorem NumCut_err (r cur : Bytes) (small : NumOut) : NumCut r (.err cur) small := by
-  intro v rest h _
-  cases h
 
 theorem NumCut_of_numLen {r : Bytes} {big small : NumOut} (h : numLen big < r.length) :
     NumCut r big small := by
